@@ -1314,6 +1314,12 @@ func ruleDecoderTermination(r *Run, p *Prog, a *a23) {
 					// `for … range pbs` with pbs the bytes a helper has read from the input: one
 					// iteration per byte already consumed
 					if lc, ok := bound.(*ssa.Call); ok && builtinName(&lc.Call) == "len" && len(lc.Call.Args) == 1 {
+						// the length of an object that already exists (a parameter: bytes the caller has
+						// read) bounds the loop by data actually present; an allocation sized by an input
+						// integer is judged where it is made (A23 make)
+						if _, isParam := lc.Call.Args[0].(*ssa.Parameter); isParam {
+							covered = true
+						}
 						if rc, ok := lc.Call.Args[0].(*ssa.Call); ok {
 							if sc := staticCallee(&rc.Call); sc != nil && ci.inPkg[sc] && returnsInputBytes(sc) && rc.Block().Dominates(h) && rc.Block() != h {
 								covered = true
